@@ -429,18 +429,31 @@ class Ctx:
 
 
 def result_paths(r):
-    """Paths of the result fields that are corrupted one at a time: top-level keys, and the elements of
-    top-level lists / the fields of top-level objects one level down."""
+    """Paths of the result fields that are corrupted one at a time: the leaves (scalars, terms) of the result,
+    descending through objects and lists (long lists: first, middle and last element), at most 5 levels deep."""
     paths = []
+
+    def walk(v, path, depth):
+        if L.is_term(v) or not isinstance(v, (list, dict)) or depth >= 5:
+            paths.append(tuple(path))
+            return
+        if isinstance(v, dict):
+            if not v:
+                paths.append(tuple(path))
+            for k in v:
+                walk(v[k], path + [k], depth + 1)
+            return
+        if not v:
+            paths.append(tuple(path))
+            return
+        idx = range(len(v)) if len(v) <= 12 else sorted({0, len(v) // 2, len(v) - 1})
+        for i in idx:
+            walk(v[i], path + [i], depth + 1)
+
     for k, v in r.items():
         if k in ("live",):
             continue
-        if isinstance(v, list) and v and len(v) <= 12:
-            paths += [(k, i) for i in range(len(v))]
-        elif isinstance(v, dict) and not L.is_term(v) and v:
-            paths += [(k, kk) for kk in v]
-        else:
-            paths.append((k,))
+        walk(v, [k], 1)
     return paths
 
 
@@ -461,6 +474,16 @@ def corrupt_value(v):
             return "T" if corrupt_value.flip else "F"
         return {"T": "F", "F": "T", "": "SymEngineException"}.get(v, "")
     if L.is_term(v):
+        if v["k"] == "Dbl":
+            # another double: bit 20 of the leading mantissa word flipped (a relative change of 2^-6), or 1.5
+            import copy
+            if v.get("s") == "fin" and len(v.get("a", [])) >= 6:
+                w = copy.deepcopy(v)
+                w["a"][3]["n"] = v["a"][3]["n"] ^ (1 << 20)
+                return w
+            z = {"k": "Int", "a": [], "s": "", "n": 0, "d": 1}
+            return {"k": "Dbl", "s": "fin", "n": 1, "d": 0,
+                    "a": [dict(z), dict(z), dict(z), dict(z, n=100663296), dict(z), dict(z, n=-52)]}
         if v["k"] in ("Int", "Rat"):
             w = dict(v)
             w["n"] = v["n"] + 1
